@@ -3,6 +3,7 @@ CONSTANTS
   Mode = "rotate"
   Variants = {0, 1, 2, 3, 4, 5}
   KeyLens <- KeyLensAll
+  AddrMode = "on"
   TamperMode = "none"
   TamperVariants = {}
   TamperAllVariants = {}
